@@ -1,35 +1,56 @@
 import DoitModel.Proofs.RunSys
 import DoitModel.Proofs.C08Conf2
 import DoitModel.Proofs.C08Dyn1
+import DoitModel.Proofs.C08LiftDeliver
 /-! # C08 (I10) with calc_dep, step 2: soundness of the dynamic dependency lists and of `bad_deps` / `ignored_deps`
 
 Node-local invariant `NodeS`: every entry of `task.calc_dep` (`dynCalc`) is a static calc_dep or was delivered by an
-executed / up-to-date member (`CalcS`, justified by the statuses of the state), every entry of `task.task_dep`
+executed / up-to-date member, or by a member that failed during its execution (`SF`: its derived outcome says so)
+(`CalcS`, justified by the statuses of the state), every entry of `task.task_dep`
 (`dynTask`) is static or was delivered by such a member (`TaskS`); pending lists, snapshots and wait sets are drawn from
 them; `bad_deps` / `ignored_deps` hold failed / ignored dependencies only.  Lifted to all nodes as `InvN`. -/
 namespace DoitModel.Run.Dyn
+
+/-- on inputs where no failing calc task has returned dependency values (`NoFailDeliver`, the former scope of this
+    development) `delivOf` is the delivery of the executed / up-to-date calc tasks only -/
+theorem delivOf_noFail {inp : RunInput} [h : NoFailDeliver inp] (c : Name) (d : Den) :
+    delivOf inp c d = if d.rs.good then inp.calcRes c else {} := by
+  unfold delivOf; rw [h.nil c]; split <;> simp
+
+
+/-- `c` has a derived outcome, and it is a failure during the execution of `c` (`startedFail`) -/
+def SF (inp : RunInput) (c : Name) : Prop := ∃ d, DenOf inp c d ∧ startedFail inp c d = true
+
+/-- a failed task that has a start event failed during its execution according to the denotation -/
+def StartF (inp : RunInput) (s : Sys) : Prop := ∀ c, stOf s c = .fail → started s c = true → SF inp c
 
 /-- calc_deps of `n` justified by the statuses in `s` -/
 inductive CalcS (inp : RunInput) (s : Sys) (n : Name) : Name → Prop
   | static {c : Name} : c ∈ inp.calcDep n → CalcS inp s n c
   | deliv {c x : Name} : CalcS inp s n c → (stOf s c).good = true → x ∈ (inp.calcRes c).calcs → CalcS inp s n x
+  | delivF {c x : Name} : CalcS inp s n c → stOf s c = .fail → SF inp c → x ∈ (inp.calcResFail c).calcs →
+      CalcS inp s n x
 
 /-- task_deps of `n` justified by the statuses in `s` -/
 def TaskS (inp : RunInput) (s : Sys) (n x : Name) : Prop :=
   x ∈ inp.taskDep n ∨
-  ∃ c, CalcS inp s n c ∧ (stOf s c).good = true ∧ (x ∈ (inp.calcRes c).tasks ∨ x ∈ (inp.calcRes c).files)
+  (∃ c, CalcS inp s n c ∧ (stOf s c).good = true ∧ (x ∈ (inp.calcRes c).tasks ∨ x ∈ (inp.calcRes c).files)) ∨
+  ∃ c, CalcS inp s n c ∧ stOf s c = .fail ∧ SF inp c ∧
+    (x ∈ (inp.calcResFail c).tasks ∨ x ∈ (inp.calcResFail c).files)
 
 theorem CalcS.stable {inp : RunInput} {s s' : Sys} {n x : Name} (hst : Stable s s') (h : CalcS inp s n x) :
     CalcS inp s' n x := by
   induction h with
   | static hc => exact CalcS.static hc
   | deliv _ hg hm ih => exact CalcS.deliv ih (by rw [hst _ (RS.good_finished hg)]; exact hg) hm
+  | delivF _ hf hsf hm ih => exact CalcS.delivF ih (by rw [hst _ (by rw [hf]; rfl)]; exact hf) hsf hm
 
 theorem TaskS.stable {inp : RunInput} {s s' : Sys} {n x : Name} (hst : Stable s s') (h : TaskS inp s n x) :
     TaskS inp s' n x := by
-  rcases h with a | ⟨c, hc, hg, hm⟩
+  rcases h with a | ⟨c, hc, hg, hm⟩ | ⟨c, hc, hf, hsf, hm⟩
   · exact Or.inl a
-  · exact Or.inr ⟨c, hc.stable hst, by rw [hst _ (RS.good_finished hg)]; exact hg, hm⟩
+  · exact Or.inr (Or.inl ⟨c, hc.stable hst, by rw [hst _ (RS.good_finished hg)]; exact hg, hm⟩)
+  · exact Or.inr (Or.inr ⟨c, hc.stable hst, by rw [hst _ (by rw [hf]; rfl)]; exact hf, hsf, hm⟩)
 
 /-- where an entry of `wait_run` / `bad_deps` / `ignored_deps` of node `n` can come from (`lt`: the setup-tasks have
     been passed to `_node_add_wait_run`) -/
@@ -129,13 +150,13 @@ theorem implicitNew_sub : ∀ (fs acc : List Name) (x : Name), x ∈ implicitNew
       · rw [e]; simp
       · exact List.mem_cons_of_mem _ (ih _ _ e)
 
-theorem addDeps_D {inp : RunInput} {s : Sys} {n : Name} {lt : Bool} {nd : Node} {p : Name}
-    (h : NodeD inp s n lt nd) (hg : (stOf s p).good = true) (hp : p ∈ nd.dynCalc) :
-    NodeD inp s n lt (nd.addDeps (inp.calcRes p)) := by
-  have g := addDeps_grow nd (inp.calcRes p)
-  have hsrc : ∀ q, Src inp n lt nd q → Src inp n lt (nd.addDeps (inp.calcRes p)) q :=
+theorem addDeps_gen_D {inp : RunInput} {s : Sys} {n : Name} {lt : Bool} {nd : Node} (r : CalcRes)
+    (h : NodeD inp s n lt nd) (hC : ∀ x ∈ r.calcs, CalcS inp s n x)
+    (hT : ∀ x, x ∈ r.tasks ∨ x ∈ r.files → TaskS inp s n x) :
+    NodeD inp s n lt (nd.addDeps r) := by
+  have g := addDeps_grow nd r
+  have hsrc : ∀ q, Src inp n lt nd q → Src inp n lt (nd.addDeps r) q :=
     fun q hq => hq.mono (fun x => x) g.dynTask g.dynCalc
-  have hcp := h.dynC p hp
   refine ⟨?_, ?_, ?_, ?_, ?_, ?_, ?_, ?_, ?_, ?_⟩
   · intro d hd
     simp only [Node.addDeps, List.mem_append] at hd ⊢
@@ -158,15 +179,26 @@ theorem addDeps_D {inp : RunInput} {s : Sys} {n : Name} {lt : Bool} {nd : Node} 
     rcases hx with a | a
     · exact h.dynC x a
     · simp only [newCalcDeps, List.mem_filter] at a
-      exact CalcS.deliv hcp hg (mem_dedup.mp a.1)
+      exact hC x (mem_dedup.mp a.1)
   · intro x hx
     simp only [Node.addDeps, List.mem_append] at hx
     rcases hx with a | a
     · exact h.dynT x a
     · simp only [newTaskDeps, List.mem_append] at a
       rcases a with a | a
-      · exact Or.inr ⟨p, hcp, hg, Or.inl a⟩
-      · exact Or.inr ⟨p, hcp, hg, Or.inr (implicitNew_sub _ _ _ a)⟩
+      · exact hT x (Or.inl a)
+      · exact hT x (Or.inr (implicitNew_sub _ _ _ a))
+
+theorem addDeps_D {inp : RunInput} {s : Sys} {n : Name} {lt : Bool} {nd : Node} {p : Name}
+    (h : NodeD inp s n lt nd) (hg : (stOf s p).good = true) (hp : p ∈ nd.dynCalc) :
+    NodeD inp s n lt (nd.addDeps (inp.calcRes p)) :=
+  addDeps_gen_D _ h (fun _ hx => CalcS.deliv (h.dynC p hp) hg hx) (fun _ hx => Or.inr (Or.inl ⟨p, h.dynC p hp, hg, hx⟩))
+
+theorem addDepsF_D {inp : RunInput} {s : Sys} {n : Name} {lt : Bool} {nd : Node} {p : Name}
+    (h : NodeD inp s n lt nd) (hf : stOf s p = .fail) (hsf : SF inp p) (hp : p ∈ nd.dynCalc) :
+    NodeD inp s n lt (nd.addDeps (inp.calcResFail p)) :=
+  addDeps_gen_D _ h (fun _ hx => CalcS.delivF (h.dynC p hp) hf hsf hx)
+    (fun _ hx => Or.inr (Or.inr ⟨p, h.dynC p hp, hf, hsf, hx⟩))
 
 theorem deliver_D {inp : RunInput} {s : Sys} {n : Name} {lt : Bool} {nd : Node} {pst : RS} {p : Name}
     (h : NodeD inp s n lt nd) (hst : stOf s p = pst) (hp : p ∈ nd.dynCalc) :
@@ -176,17 +208,28 @@ theorem deliver_D {inp : RunInput} {s : Sys} {n : Name} {lt : Bool} {nd : Node} 
   · rename_i hg; exact addDeps_D h (by rw [hst]; exact hg) hp
   · exact h
 
+/-- `_process_calc_dep_results` for a failed `p`: what it returned before failing is justified when the flag `ex`
+    (`p` has a start event) implies that the denotation of `p` is a failure during execution -/
+theorem deliverF_D {inp : RunInput} {s : Sys} {n : Name} {lt : Bool} {nd : Node} {pst : RS} {p : Name} {ex : Bool}
+    (h : NodeD inp s n lt nd) (hst : stOf s p = pst) (hp : p ∈ nd.dynCalc)
+    (hF : pst = .fail → ex = true → SF inp p) :
+    NodeD inp s n lt (deliverF inp ex pst p nd) := by
+  unfold deliverF
+  split
+  · rename_i hc; exact addDepsF_D h (hst.trans hc.1) (hF hc.1 hc.2) hp
+  · exact h
+
 /-! ### `_node_add_wait_run` -/
 
-theorem absorbDone_D {inp : RunInput} [NoFailDeliver inp] {s : Sys} {n : Name} {lt : Bool} (isCalc : Bool) : ∀ (ds : List Name) (nd : Node),
-    NodeD inp s n lt nd → (∀ d ∈ ds, if isCalc = true then d ∈ nd.dynCalc else Src inp n lt nd d) →
+theorem absorbDone_D {inp : RunInput} {s : Sys} {n : Name} {lt : Bool} (hF : StartF inp s) (isCalc : Bool) :
+    ∀ (ds : List Name) (nd : Node), NodeD inp s n lt nd → (∀ d ∈ ds, if isCalc = true then d ∈ nd.dynCalc else Src inp n lt nd d) →
     NodeD inp s n lt (absorbDone inp s isCalc ds nd) := by
   intro ds
   induction ds with
   | nil => intro nd h _; exact h
   | cons a t ih =>
     intro nd h hq
-    simp only [absorbDone, deliverF_id (inp := inp)]
+    simp only [absorbDone]
     by_cases hu : unfinished s a = true
     · simp only [hu, if_true]; exact ih nd h (fun d hd => hq d (by simp [hd]))
     · simp only [hu, Bool.false_eq_true, if_false]
@@ -204,17 +247,20 @@ theorem absorbDone_D {inp : RunInput} [NoFailDeliver inp] {s : Sys} {n : Name} {
         simp only [if_true] at ha ⊢
         have g1 := parentStatus_grow (stOf s a) a nd
         have g2 := deliver_grow inp (stOf s a) a (parentStatus (stOf s a) a nd)
-        apply ih _ (deliver_D (parentStatus_D h rfl (Or.inr (Or.inl ha))) rfl (g1.dynCalc a ha))
+        have g3 := deliverF_grow inp (started s a) (stOf s a) a
+          (deliver inp (stOf s a) a (parentStatus (stOf s a) a nd))
+        apply ih _ (deliverF_D (deliver_D (parentStatus_D h rfl (Or.inr (Or.inl ha))) rfl (g1.dynCalc a ha)) rfl
+          (g2.dynCalc a (g1.dynCalc a ha)) (fun e1 e2 => hF a e1 e2))
         intro d hd
         have := hq d (by simp [hd])
         simp only [if_true] at this ⊢
-        exact g2.dynCalc d (g1.dynCalc d this)
+        exact g3.dynCalc d (g2.dynCalc d (g1.dynCalc d this))
 
-theorem waitNode_D {inp : RunInput} [NoFailDeliver inp] {s : Sys} {n : Name} {lt : Bool} {nd : Node} (ds : List Name) (isCalc : Bool)
-    (pc' : PC) (h : NodeD inp s n lt nd)
+theorem waitNode_D {inp : RunInput} {s : Sys} {n : Name} {lt : Bool} {nd : Node} (hF : StartF inp s) (ds : List Name)
+    (isCalc : Bool) (pc' : PC) (h : NodeD inp s n lt nd)
     (hds : ∀ d ∈ ds, if isCalc = true then d ∈ nd.dynCalc else Src inp n lt nd d) :
     NodeD inp s n lt (waitNode inp s nd ds isCalc pc') := by
-  have h1 := absorbDone_D isCalc ds nd h hds
+  have h1 := absorbDone_D hF isCalc ds nd h hds
   obtain ⟨g, _, _⟩ := absorbDone_spec inp s isCalc ds nd
   have hds' : ∀ d ∈ ds.filter (unfinished s),
       if isCalc = true then d ∈ (absorbDone inp s isCalc ds nd).dynCalc
@@ -301,14 +347,14 @@ theorem NodeS.setStatus {inp : RunInput} {s : Sys} {n : Name} {nd : Node} (st' :
     (hne : st' ≠ .none) : NodeS inp s n { nd with status := st' } :=
   ⟨h.1.ctl rfl rfl rfl rfl rfl rfl rfl rfl rfl rfl, fun _ => hne⟩
 
-theorem waitNode_S {inp : RunInput} [NoFailDeliver inp] {s : Sys} {n : Name} {nd : Node} (ds : List Name) (isCalc : Bool) (pc' : PC)
-    (h : NodeS inp s n nd)
+theorem waitNode_S {inp : RunInput} {s : Sys} {n : Name} {nd : Node} (hF : StartF inp s) (ds : List Name) (isCalc : Bool)
+    (pc' : PC) (h : NodeS inp s n nd)
     (hds : ∀ d ∈ ds, if isCalc = true then d ∈ nd.dynCalc else Src inp n pc'.late nd d)
     (hl : nd.pc.late = true → pc'.late = true) (hp : pc'.ph2 = true → nd.pc.ph2 = true ∨ nd.status ≠ .none) :
     NodeS inp s n (waitNode inp s nd ds isCalc pc') := by
   have f := waitNode_facts inp s nd ds isCalc pc'
   refine ⟨?_, ?_⟩
-  · rw [f.pc]; exact waitNode_D ds isCalc pc' (h.1.late hl) hds
+  · rw [f.pc]; exact waitNode_D hF ds isCalc pc' (h.1.late hl) hds
   · intro e; rw [f.pc] at e; rw [f.status]
     rcases hp e with a | a
     · exact h.2 a
@@ -319,6 +365,22 @@ theorem wokenNode_S {inp : RunInput} {s : Sys} {n : Name} {w : Node} {pst : RS} 
     NodeS inp s n (wokenNode inp pst p w) := by
   have u := wokenNode_upd inp pst p w
   exact ⟨by rw [u.pc]; exact wokenNode_D h.1 hp hst, by rw [u.pc, u.status]; exact h.2⟩
+
+/-- `wokenNode` plus the delivery of what a failed-during-execution calc_dep returned -/
+theorem wokenF_S {inp : RunInput} {s : Sys} {n : Name} {w : Node} {pst : RS} {p : Name}
+    (h : NodeS inp s n w) (hp : p ∈ w.waitRun ∨ p ∈ w.waitRunCalc) (hst : stOf s p = pst)
+    (hF : pst = .fail → started s p = true → SF inp p) :
+    NodeS inp s n (wokenF inp s pst p w) := by
+  have h1 := wokenNode_S h hp hst
+  have u := wokenNode_upd inp pst p w
+  unfold wokenF
+  split
+  · rename_i hc
+    have g := deliverF_grow inp (started s p) pst p (wokenNode inp pst p w)
+    refine ⟨?_, ?_⟩
+    · rw [g.pc]; exact deliverF_D h1.1 hst (u.dynCalc p (h.1.waitC p hc)) hF
+    · rw [g.pc, g.status]; exact h1.2
+  · exact h1
 
 /-! ### all nodes -/
 
